@@ -596,6 +596,7 @@ impl std::fmt::Display for LeafErr {
     }
 }
 impl std::error::Error for LeafErr {}
+impl miette::Diagnostic for LeafErr {}
 
 /// passes its input on, or fails with its own name
 #[derive(Clone)]
@@ -649,6 +650,20 @@ impl Operator<u64> for FailAt {
     }
 }
 
+/// the chain miette renders: `diagnostic_source()` link by link
+fn diagnostic_chain_of(e: &dyn miette::Diagnostic) -> Vec<String> {
+    let mut out = vec![e.to_string()];
+    let mut cur = e.diagnostic_source();
+    while let Some(c) = cur {
+        out.push(c.to_string());
+        cur = c.diagnostic_source();
+        if out.len() > 32 {
+            break;
+        }
+    }
+    out
+}
+
 fn chain_of(e: &(dyn std::error::Error + 'static)) -> Vec<String> {
     let mut out = vec![e.to_string()];
     let mut cur = e.source();
@@ -668,12 +683,17 @@ fn chain_of(e: &(dyn std::error::Error + 'static)) -> Vec<String> {
 fn error_chains(run: &mut Run) -> u64 {
     let mut n = 0u64;
     let mut rng = TapeRng::default();
-    let mut judge = |run: &mut Run, name: &str, r: Result<(), Box<dyn std::error::Error + 'static>>, depth: usize, root: &str| {
+    let mut judge = |run: &mut Run, name: &str, r: Result<(), (Box<dyn std::error::Error + 'static>, Option<Vec<String>>)>, depth: usize, root: &str| {
         n += 1;
         let what = match r {
             Ok(()) => Some("the composition succeeded although a part failed".to_string()),
-            Err(e) => {
+            Err((e, diag)) => {
                 let chain = chain_of(e.as_ref());
+                if let Some(d) = &diag {
+                    if *d != chain {
+                        run.violation(format!("compose/diagnostic-chain/{}", name.split(' ').next().unwrap_or(name)), format!("{name}: the diagnostic chain (diagnostic_source(), what a miette report shows) is {d:?}, the source() chain is {chain:?}: the report does not show which part failed"), json!({"check":"C14","scenario":"error-chain","case":name}));
+                    }
+                }
                 if chain.last().map(String::as_str) != Some(root) {
                     Some(format!("following source() from the reported error gives {chain:?}; it does not end at the failing part's error {root:?}"))
                 } else if chain.len() != depth + 1 {
@@ -691,8 +711,11 @@ fn error_chains(run: &mut Run) -> u64 {
     };
     let ok = |n: &'static str| Part(n, false);
     let bad = |n: &'static str| Part(n, true);
-    fn b<T, E: std::error::Error + 'static>(r: Result<T, E>) -> Result<(), Box<dyn std::error::Error + 'static>> {
-        r.map(|_| ()).map_err(|e| Box::new(e) as Box<dyn std::error::Error + 'static>)
+    fn b<T, E: std::error::Error + miette::Diagnostic + 'static>(r: Result<T, E>) -> Result<(), (Box<dyn std::error::Error + 'static>, Option<Vec<String>>)> {
+        r.map(|_| ()).map_err(|e| {
+            let d = diagnostic_chain_of(&e);
+            (Box::new(e) as Box<dyn std::error::Error + 'static>, Some(d))
+        })
     }
     judge(run, "then first", b(bad("f").then(ok("g")).apply(1, &mut rng)), 1, "part f failed");
     judge(run, "then second", b(ok("f").then(bad("g")).apply(1, &mut rng)), 1, "part g failed");
@@ -712,7 +735,7 @@ fn error_chains(run: &mut Run) -> u64 {
     // through the erased layer the error is boxed: the chain is all that is left
     {
         let op: Box<dyn DynOperator<u64, Output = (u64, u64)>> = Box::new(ok("f").and(ok("g").then(bad("h"))));
-        let r = op.apply(1, &mut rng).map(|_| ()).map_err(|e| -> Box<dyn std::error::Error + 'static> { e });
+        let r = op.apply(1, &mut rng).map(|_| ()).map_err(|e| -> (Box<dyn std::error::Error + 'static>, Option<Vec<String>>) { (e, None) });
         judge(run, "boxed: and second, nested then second", r, 2, "part h failed");
     }
     n
